@@ -522,6 +522,60 @@ def linesCommented : LineSt → Str → Bool
   | .dash1, c :: cs => if c = '-' then linesCommented .mid cs else false
   | .mid, c :: cs => linesCommented (if isNl c then .start else .mid) cs
 
+/-! ## numbers: what the formatter writes and what the server reads back -/
+
+/-- value of a run of decimal digits -/
+def valOf (cs : Str) : Nat := cs.foldl (fun a c => a * 10 + (c.toNat - 48)) 0
+
+/-- a decimal mantissa with a power-of-ten exponent as an exact fraction (numerator, denominator) -/
+def ratOf (m : Nat) (e10 : Int) : Nat × Nat :=
+  if 0 ≤ e10 then (m * 10 ^ e10.toNat, 1) else (m, 10 ^ (-e10).toNat)
+
+/-- the exact value of a number token `digits[.digits]` as the server's numeric input reads it: (numerator, denominator) -/
+def notDot (c : Char) : Bool := c != '.'
+
+def decValue (tok : Str) : Nat × Nat :=
+  let ip := tok.takeWhile notDot
+  let fp := (tok.dropWhile notDot).drop 1
+  if fp.isEmpty then (valOf ip * 10 ^ 0, 1) else (valOf (ip ++ fp), 10 ^ fp.length)
+
+/-- float8 input: the IEEE-754 binary64 nearest to the fraction p/q (round half to even), as its bit pattern;
+overflow gives +Inf, 0 gives +0 -/
+def nearestF64Bits (pq : Nat × Nat) : Nat :=
+  let p := pq.1
+  let q := pq.2
+  if p = 0 ∨ q = 0 then 0
+  else
+    -- k = floor(log2 (p/q))
+    let k0 : Int := (Nat.log2 p : Int) - (Nat.log2 q : Int)
+    let ge := fun (k : Int) => if 0 ≤ k then q * 2 ^ k.toNat ≤ p else q ≤ p * 2 ^ (-k).toNat
+    let k : Int := if ge (k0 + 1) then k0 + 1 else if ge k0 then k0 else k0 - 1
+    let e : Int := if k - 52 < -1074 then -1074 else k - 52
+    let num := if e < 0 then p * 2 ^ (-e).toNat else p
+    let den := if e < 0 then q else q * 2 ^ e.toNat
+    let m0 := num / den
+    let r := num % den
+    let m1 := if 2 * r > den ∨ (2 * r = den ∧ m0 % 2 = 1) then m0 + 1 else m0
+    let me : Nat × Int := if m1 = 2 ^ 53 then (2 ^ 52, e + 1) else (m1, e)
+    if me.2 > 971 then 0x7FF0000000000000
+    else if me.1 < 2 ^ 52 then me.1
+    else (me.2 + 1075).toNat * 2 ^ 52 + (me.1 - 2 ^ 52)
+
+/-- strconv's `%f` rendering (ftoa.go `fmtF` with the shortest digits, precision -1) of the decimal
+`0.d1d2…dn × 10^dp` given by its digit string `ds` and decimal-point position `dp`: integer part (digits, padded
+with zeros, or a single 0), then `.` and the remaining digits when there are any — never an exponent -/
+def renderF (ds : Str) (dp : Int) : Str :=
+  let nd := ds.length
+  let ip := if dp ≤ 0 then ['0'] else ds.take dp.toNat ++ List.replicate (dp.toNat - nd) '0'
+  let fracLen := ((nd : Int) - dp).toNat
+  if fracLen = 0 then ip
+  else ip ++ '.' :: (List.replicate (-dp).toNat '0' ++ ds.drop dp.toNat)
+
+/-- what may follow a number token without extending it -/
+def numFollow : Str → Bool
+  | [] => true
+  | c :: _ => !isDigit c && c != '.'
+
 /-! ## identifier safety -/
 
 def isAsciiIdentStart (c : Char) : Bool := isAsciiLetter c || c == '_'
